@@ -43,6 +43,8 @@ func runC08(p *Prog, r *Report) {
 	anyPatternRule(p, r, "C08.R14")
 	enumKindMaskRule(p, r, "C08.R15")
 	transformersMergedRule(p, r, "C08.R16")
+	enumDisabledRule(p, r, "C08.R17")
+	transformerLookupOrderRule(p, r, "C08.R18")
 	relativePackageRule(p, r, "C08.R13")
 	matchesCompleteRule(p, r, "C08.R11", "two detected enums are always converted by the name-driven switch, never by the plain basic conversion", "builder.(*Enum).Matches")
 }
